@@ -1,7 +1,18 @@
 import Model.Flow
+import Proofs.FlowOnce
 
 /-! # C11 — no transaction taken from the mempool is lost on its way into the chain
-(first theorems about the reaper hand-off; the conservation invariant over all histories is under construction) -/
+
+
+Vocabulary (`Model/Flow.lean`, executed by the driver against the real reaper / single sequencer / producer):
+a history is a `List Flow.Op` (`mempool txs` = what `GetTxs` answers from now on, `reap`, `produce`, `restart`,
+`crash k` = the process dies when only the first `k` durable writes of the last operation are on disk and is
+restarted on that image) run by `Flow.opStep` from the first start on an empty disk (`Flow.history`).
+Ghost (`Proofs/FlowInv.lean`): `handed` = the batches the queue accepted from the reaper, `released` = the batches
+the queue released to the producer, `lost` = the batches taken by a production step that crashed in the loss window,
+`ever` = every batch ever accepted.  `chainTxs` / `pendingTxs` = the transactions of the committed blocks in height
+order / of the block stored at `height + 1`; `queued` = the transactions waiting in the queue.
+`CfgOK`: initial height ≥ 1 and the node's signer is the genesis proposer (otherwise no block is ever produced). -/
 namespace Spec.C11
 open Wire Chain Flow
 
@@ -47,5 +58,222 @@ theorem handoff_written_before_marks (c : Cfg) (n : Node) (mempool : List Bytes)
       obtain ⟨t, _, rfl⟩ := hx
       exact ⟨t, rfl⟩
     · simp at h
+
+/-! ## every history: the node always comes up again -/
+
+/-- **No crash point wedges the node**: after every history — crashes after any number of the writes of any
+operation included — every restart succeeded. -/
+theorem C11_always_restarts (c : Cfg) (hc : CfgOK c) (ops : List Op) : ∃ σ g, history c ops = some (σ, g) := by
+  obtain ⟨σ, g, h, _⟩ := history_inv hc ops
+  exact ⟨σ, g, h⟩
+
+/-- the history executed by the driver is the first component of the history with its ghost -/
+theorem C11_history_is_runOps (c : Cfg) (σ0 : RunSt) (ops : List Op) :
+    (runG c σ0 {} ops).map (·.1) = runOps c σ0 ops := runG_fst c σ0 {} ops
+
+/-! ## 1. conservation without crashes -/
+
+/-- **Conservation, in order** (histories without restart and crash): the transactions handed over are exactly
+the transactions of the chain, then of the block waiting at `height + 1`, then of the queue — as *sequences*; and the
+chain holds the batches in the order the queue released them. -/
+theorem C11_conservation (c : Cfg) (hc : CfgOK c) (ops : List Op) (hn : ∀ op ∈ ops, op.isRestart = false)
+    (σ : RunSt) (g : Ghost) (h : history c ops = some (σ, g)) :
+    g.handed.flatten = chainTxs σ.n.prod.store ++ pendingTxs σ.n.prod.store ++ queued σ.n ∧
+    g.released.flatten = chainTxs σ.n.prod.store ++ pendingTxs σ.n.prod.store ∧
+    g.handed = g.released ++ σ.n.q.mem := by
+  obtain ⟨σ0, h0, hi0⟩ := init_inv hc
+  obtain ⟨σ', g', hr, hf⟩ := run_inv hc hi0 ops
+  have h' : history c ops = some (σ', g') := by unfold history; rw [h0]; exact hr
+  rw [h] at h'
+  simp only [Option.some.injEq, Prod.mk.injEq] at h'
+  obtain ⟨rfl, rfl⟩ := h'
+  have hcr : g.crashed = false := by rw [run_crashed hn hr]
+  obtain ⟨e1, e2, _, _⟩ := hf.exact hcr
+  refine ⟨?_, e2, e1⟩
+  rw [e1, List.flatten_append, e2]; rfl
+
+/-- **Quiescence**: once the queue is drained and no block is waiting, the chain holds exactly the transactions
+handed over, in hand-over order, each as often as it was handed over. -/
+theorem C11_quiescence (c : Cfg) (hc : CfgOK c) (ops : List Op) (hn : ∀ op ∈ ops, op.isRestart = false)
+    (σ : RunSt) (g : Ghost) (h : history c ops = some (σ, g))
+    (hq : queued σ.n = []) (hp : pendingTxs σ.n.prod.store = []) :
+    chainTxs σ.n.prod.store = g.handed.flatten := by
+  rw [(C11_conservation c hc ops hn σ g h).1, hq, hp]; simp
+
+/-- everything handed over is marked as seen (so it is never handed over again: `seen_not_resubmitted`) -/
+theorem C11_handed_is_seen (c : Cfg) (hc : CfgOK c) (ops : List Op) (hn : ∀ op ∈ ops, op.isRestart = false)
+    (σ : RunSt) (g : Ghost) (h : history c ops = some (σ, g)) : ∀ b ∈ g.handed, ∀ t ∈ b, t ∈ σ.n.seen := by
+  obtain ⟨σ0, h0, hi0⟩ := init_inv hc
+  obtain ⟨σ', g', hr, hf⟩ := run_inv hc hi0 ops
+  have h' : history c ops = some (σ', g') := by unfold history; rw [h0]; exact hr
+  rw [h] at h'
+  simp only [Option.some.injEq, Prod.mk.injEq] at h'
+  obtain ⟨rfl, rfl⟩ := h'
+  exact (hf.exact (by rw [run_crashed hn hr])).2.2.1
+
+/-! ### witnesses -/
+
+def wCfg : Cfg := { p := { chainId := "w", initialHeight := 1, genesisTime := 100, proposerAddr := [1], key := 1, signerAddr := [1] },
+                    qc := { id := [7], max := 2 } }
+theorem wCfg_ok : CfgOK wCfg := ⟨by decide, rfl⟩
+
+def t1 : Bytes := [1]
+def t2 : Bytes := [2]
+def t3 : Bytes := [3]
+
+/-- all handed-over transactions that are neither in the chain, nor waiting at `height + 1`, nor queued -/
+def missing (c : Cfg) (ops : List Op) : Option (List Bytes) :=
+  (history c ops).map fun r =>
+    r.2.handed.flatten.filter fun t =>
+      !(chainTxs r.1.n.prod.store ++ pendingTxs r.1.n.prod.store ++ queued r.1.n).contains t
+
+/-- what the chain holds at the end of a history -/
+def chainOf (c : Cfg) (ops : List Op) : Option (List Bytes) := (history c ops).map fun r => chainTxs r.1.n.prod.store
+
+/-- non-vacuity of `C11_conservation` / `C11_quiescence`: two hand-overs, the second one while the first is in a
+block; at the end the chain holds the four transactions in hand-over order -/
+example : chainOf wCfg [.mempool [t1, t2], .reap, .produce, .produce, .mempool [t2, t3, t1, [4]], .reap, .produce] =
+    some [t1, t2, t3, [4]] := by decide +kernel
+
+/-! ### no transaction twice -/
+
+/-- Full statement: without crashes no transaction is handed over (hence included) twice. -/
+def C11_once_full : Prop :=
+  ∀ (c : Cfg) (ops : List Op) (σ : RunSt) (g : Ghost), CfgOK c → (∀ op ∈ ops, op.isRestart = false) →
+    history c ops = some (σ, g) → g.handed.flatten.Nodup
+
+/-- FALSE of the current code (recorded finding `C11/twice/same-bytes-twice-in-one-mempool-response`): the reaper
+filters a mempool response against the seen-set only, so bytes that occur twice in *one* response are handed over
+twice and included twice. -/
+theorem C11_once_fails : ¬ C11_once_full := by
+  intro h
+  have key : ∀ r, history wCfg [.mempool [t1, t1], .reap] = some r → ¬ r.2.handed.flatten.Nodup := by
+    have : (history wCfg [.mempool [t1, t1], .reap]).map (fun r => r.2.handed) = some [[t1, t1]] := by decide +kernel
+    intro r hr
+    rw [hr] at this
+    simp only [Option.map_some, Option.some.injEq] at this
+    rw [this]; decide
+  obtain ⟨σ, g, hh⟩ := C11_always_restarts wCfg wCfg_ok [.mempool [t1, t1], .reap]
+  exact key (σ, g) hh (h wCfg _ σ g wCfg_ok (by decide) hh)
+
+/-- PARTIAL (excludes the recorded witness): in histories without restart and crash in which no single mempool
+response contains the same bytes twice, no transaction is handed over twice — whatever is repeated *across*
+responses is filtered by the seen-set — hence (`C11_conservation`) none is included twice. -/
+theorem C11_once_partial (c : Cfg) (hc : CfgOK c) (ops : List Op) (hn : ∀ op ∈ ops, op.isRestart = false)
+    (hd : ∀ op ∈ ops, op.dupFree) (σ : RunSt) (g : Ghost) (h : history c ops = some (σ, g)) :
+    g.handed.flatten.Nodup ∧ (chainTxs σ.n.prod.store ++ pendingTxs σ.n.prod.store ++ queued σ.n).Nodup := by
+  obtain ⟨σ0, h0, hi0⟩ := init_inv hc
+  have hr : runG c σ0 {} ops = some (σ, g) := by
+    unfold history at h; rw [h0] at h; exact h
+  have hm0 : σ0.mempool.Nodup := by
+    unfold initSt at h0
+    split at h0
+    · cases h0
+    · simp only [Option.some.injEq] at h0; subst h0; exact List.nodup_nil
+  have h1 := run_once hc hi0 rfl hm0 List.nodup_nil ops hn hd hr
+  exact ⟨h1, by rw [← (C11_conservation c hc ops hn σ g h).1]; exact h1⟩
+
+/-- non-vacuity: the same bytes offered again in later responses are handed over once -/
+example : (history wCfg [.mempool [t1, t2], .reap, .mempool [t2, t3, t1], .reap, .reap, .produce, .produce, .produce]).map
+    (fun r => (r.2.handed, chainTxs r.1.n.prod.store)) = some ([[t1, t2], [t3]], [t1, t2, t3]) := by decide +kernel
+
+/-- … and both copies reach the chain -/
+example : chainOf wCfg [.mempool [t1, t1], .reap, .produce, .produce] = some [t1, t1] := by decide +kernel
+
+/-! ## 2. crashes -/
+
+/-- Full statement: after every history, crashes at every durable-write boundary included, every transaction handed
+over is in the chain, in the block waiting at `height + 1`, or in the queue. -/
+def C11_crash_full : Prop := ∀ (c : Cfg) (ops : List Op), CfgOK c → missing c ops = some []
+
+/-- FALSE of the current code (recorded findings `C11/lost/crash-between-qdel-and-meta`,
+`C11/lost/crash-between-meta-and-blk`): the batch is durably deleted from the queue before the block that contains
+it is first saved; a crash after the delete (`k = 1`) or after the batch-cursor write (`k = 2`) loses the batch, and
+since its transactions are marked as seen they are never offered again — here they are still missing after two more
+reaps of the same mempool and three more blocks. -/
+theorem C11_crash_fails : ¬ C11_crash_full := by
+  intro h
+  have h1 := h wCfg [.mempool [t1, t2], .reap, .produce, .produce, .crash 1, .reap, .produce, .reap, .produce, .produce] wCfg_ok
+  revert h1
+  decide +kernel
+
+/-- the second crash point of the window -/
+example : missing wCfg [.mempool [t1, t2], .reap, .produce, .produce, .crash 2, .reap, .produce, .produce] = some [t1, t2] := by
+  decide +kernel
+
+/-- one write later (the early block save is durable) nothing is missing -/
+example : missing wCfg [.mempool [t1, t2], .reap, .produce, .produce, .crash 3, .reap, .produce, .produce] = some [] ∧
+    chainOf wCfg [.mempool [t1, t2], .reap, .produce, .produce, .crash 3, .reap, .produce, .produce] = some [t1, t2] := by
+  decide +kernel
+
+/-- **The loss window, exactly** (every history: crashes after any number of writes of any operation, crashes
+during recovery, restarts, refusals, repeated bytes; the SHA-256 key assumed collision-free on the batches ever
+accepted): every batch handed over is in `lost` — taken by a production step that crashed after the queue delete
+and before the early block save, `1 ≤ k ≤ 2` (`Ghost.cut`) — or all its transactions are in the chain, in the block
+waiting at `height + 1`, or in the queue. -/
+theorem C11_crash_characterised (c : Cfg) (hc : CfgOK c) (ops : List Op) (σ : RunSt) (g : Ghost)
+    (h : history c ops = some (σ, g)) (hK : KeyInjOn g.ever) :
+    ∀ b ∈ g.handed, b ∈ g.lost ∨
+      ∀ t ∈ b, t ∈ chainTxs σ.n.prod.store ++ pendingTxs σ.n.prod.store ++ queued σ.n := by
+  obtain ⟨σ', g', h', hf⟩ := history_inv hc ops
+  rw [h] at h'
+  simp only [Option.some.injEq, Prod.mk.injEq] at h'
+  obtain ⟨rfl, rfl⟩ := h'
+  intro b hb
+  rcases hf.dsafe_node hK b hb with h1 | h1 | h1
+  · exact Or.inl h1
+  · right
+    intro t ht
+    have := h1 t ht
+    have e : durAll c.p (diskOf σ.n).store = chainTxs σ.n.prod.store ++ pendingTxs σ.n.prod.store :=
+      node_durAll hf.live.toInv hf.synced
+    rw [e] at this
+    exact List.mem_append_left _ this
+  · right
+    intro t ht
+    refine List.mem_append_right _ ?_
+    unfold queued
+    exact List.mem_flatten.2 ⟨b, hf.sub _ h1, ht⟩
+
+/-- PARTIAL (excludes the two recorded crash points): when no crash fell into the loss window — `lost = []` —
+nothing handed over is lost, whatever else crashed (every crash point of `reap`, `k = 0` and `k ≥ 3` of a
+production step, crashes during recovery). -/
+theorem C11_crash_partial (c : Cfg) (hc : CfgOK c) (ops : List Op) (σ : RunSt) (g : Ghost)
+    (h : history c ops = some (σ, g)) (hK : KeyInjOn g.ever) (hw : g.lost = []) :
+    ∀ t ∈ g.handed.flatten, t ∈ chainTxs σ.n.prod.store ++ pendingTxs σ.n.prod.store ++ queued σ.n := by
+  intro t ht
+  obtain ⟨b, hb, htb⟩ := List.mem_flatten.1 ht
+  rcases C11_crash_characterised c hc ops σ g h hK b hb with h1 | h1
+  · rw [hw] at h1; cases h1
+  · exact h1 t htb
+
+/-- the window is entered by a crash only: histories with clean restarts (and no crash) lose nothing -/
+theorem C11_restarts_lose_nothing (c : Cfg) (hc : CfgOK c) (ops : List Op) (hn : ∀ op ∈ ops, op.isCrash = false)
+    (σ : RunSt) (g : Ghost) (h : history c ops = some (σ, g)) (hK : KeyInjOn g.ever) :
+    ∀ t ∈ g.handed.flatten, t ∈ chainTxs σ.n.prod.store ++ pendingTxs σ.n.prod.store ++ queued σ.n := by
+  obtain ⟨σ0, h0, hi0⟩ := init_inv hc
+  have hr : runG c σ0 {} ops = some (σ, g) := by
+    unfold history at h; rw [h0] at h; exact h
+  exact C11_crash_partial c hc ops σ g h hK (run_lost hc hi0 hn hr)
+
+/-- non-vacuity: crashes at harmless points of `reap` and `produce`, a crash during recovery and a clean restart;
+nothing is in `lost`, three transactions handed over, all in the chain at the end -/
+example :
+    (history wCfg [.mempool [t1, t2], .reap, .crash 3, .produce, .produce, .crash 4, .crash 0, .mempool [t3, t1], .reap,
+        .restart, .produce, .crash 0, .produce, .produce]).map (fun r => (r.2.lost, r.2.handed, chainTxs r.1.n.prod.store)) =
+      some ([], [[t1, t2], [t3]], [t1, t2, t3]) := by decide +kernel
+
+/-- what a crash may cause (allowed by the property: "in the absence of crashes no transaction is included twice"):
+a crash between the queue write and the seen-marks of `reap` (`k = 1`) leaves the batch in the queue and its
+transactions unmarked, so `t1` is handed over again with the next response and is included twice — nothing is lost -/
+example :
+    (history wCfg [.mempool [t1, t2], .reap, .crash 1, .produce, .produce, .crash 4, .crash 0, .mempool [t3, t1], .reap,
+        .restart, .produce, .crash 0, .produce, .produce]).map (fun r => (r.2.lost, r.2.handed, chainTxs r.1.n.prod.store)) =
+      some ([], [[t1, t2], [t3, t1]], [t1, t2, t3, t1]) := by decide +kernel
+
+/-- non-vacuity of the window: the ghost records the lost batch -/
+example :
+    (history wCfg [.mempool [t1, t2], .reap, .produce, .produce, .crash 1]).map (fun r => (r.2.lost, r.2.handed)) =
+      some ([[t1, t2]], [[t1, t2]]) := by decide +kernel
 
 end Spec.C11
